@@ -504,7 +504,16 @@ def explore(fn, V, opts=None, known=()):
                     pass
                 elif len(res.witnesses) < witness_cap or (st.paths % 97 == 0 and len(res.witnesses) < 4 * witness_cap):
                     try:
-                        m = c.ensure_model()
+                        if c.lazy:
+                            # lazily forked wide comparisons were not checked when taken: the path may be
+                            # infeasible (its obligations were discharged with these terms included, so that
+                            # is sound); only a model of PC and the lazy terms is a witness of this path
+                            r = c._check(*c.lazy_terms())
+                            if r != z3.sat:
+                                raise Abort()
+                            m = c.solver.model()
+                        else:
+                            m = c.ensure_model()
                         res.witnesses.append(dict(values=c.values(m), tags=dict(c.tags), nchecks=V._nchecks))
                     except (Abort, Inconclusive):
                         pass
